@@ -120,6 +120,10 @@ func runC11(c *Ctx) {
 				cl := fmt.Sprintf("seal/%s/%s/pt=%s/t%d", p.name, side, lenClass(pl), ts)
 				req := fmt.Sprintf("guard seal path=%s side=%s pt=%d aad=%d nonce=%d tag=%d", p.name, side, pl, al, nl, ts)
 				got := tryFault(func() { ct = a.Seal(dst, nonce, pt, aad) })
+				if got == "ok" && (len(ct) != pl+ts || cap(ct) < len(ct) || (pl+ts > 0 && &ct[0] != &dst[:1][0])) {
+					// a slice header that is not dst extended by pl+ts bytes: the call scribbled over its own frame
+					got = fmt.Sprintf("corrupt-result len=%d cap=%d", len(ct), cap(ct))
+				}
 				report(cl, req, got, "ok")
 				if got != "ok" {
 					continue
@@ -283,6 +287,41 @@ func runC11(c *Ctx) {
 				report(cl, "guard kernel "+k.name, tryFault(func() { k.f(&rk[0], &dst[0], &src[0]) }), "ok")
 				src, dst = gIn.left(16*k.n), gDst.left(16*k.n)
 				report(cl+"/io-left", "guard kernel "+k.name, tryFault(func() { k.f(&rk[0], &dst[0], &src[0]) }), "ok")
+			}
+			// the 32-byte scratch block at the guard on either side, over nonce x aad x plaintext tail classes (the
+			// scratch is used by the J0 derivation, the aad tail and the plaintext tail: seeded C11-c needs all three)
+			for _, nl := range []int{12, 1, 7, 13, 16, 17, 33} {
+				for _, al := range []int{0, 1, 15, 16, 17, 33} {
+					for _, pl := range []int{0, 1, 15, 16, 17, 33, 255, 256, 257, 300} {
+						for _, tside := range []string{"right", "left"} {
+							var temp []byte
+							if tside == "right" {
+								temp = gKey.right(32)
+							} else {
+								temp = gKey.left(32)
+							}
+							pt, nonce, aad := gIn.right(pl), gNonce.right(nl), gAad.right(al)
+							out := gDst.right(pl + 16)
+							cl := fmt.Sprintf("sealAsm/temp-%s/n=%s/aad=%s/pt=%s", tside, lenClass(nl), lenClass(al), lenClass(pl))
+							rq := fmt.Sprintf("guard sealAsm temp=%s nonce=%d aad=%d pt=%d", tside, nl, al, pl)
+							got := tryFault(func() { sm4.VerifSealAsm(&rk[0], 16, &out[0], nonce, pt, aad, &temp[0]) })
+							report(cl, rq, got, "ok")
+							if got != "ok" {
+								continue
+							}
+							ctG := append([]byte(nil), out...)
+							var po *byte
+							if pl > 0 {
+								po = &gDst.right(pl)[0]
+							}
+							report("openAsm"+cl[7:], "guard openAsm"+rq[13:], tryFault(func() {
+								if sm4.VerifOpenAsm(&rk[0], 16, po, nonce, ctG, aad, &temp[0]) != 1 {
+									panic("tag mismatch")
+								}
+							}), "ok")
+						}
+					}
+				}
 			}
 			for _, pl := range []int{0, 1, 16, 33, 300} {
 				temp := gAad.right(32)
